@@ -28,6 +28,7 @@ import (
 	"sync"
 	"testing"
 	"testing/synctest"
+	"time"
 
 	"github.com/ollama/ollama/server/internal/cache/blob"
 	"github.com/ollama/ollama/zzverif"
@@ -262,7 +263,9 @@ func (r *c09Reg) RoundTrip(req *http.Request) (*http.Response, error) {
 			}
 			return c09Resp(req, 200, &c09Body{pieces: a.pieces, end: a.end}, nil), nil
 		case <-req.Context().Done():
-			return nil, req.Context().Err()
+			// like net/http's transport: the cancellation cause (DeadlineExceeded for the
+			// client's read timer, Canceled for a cancelled pull)
+			return nil, context.Cause(req.Context())
 		}
 	}
 	return c09Resp(req, 400, c09Str(c09ErrBody(400)), nil), nil
@@ -310,6 +313,8 @@ func c09Class(err error) string {
 			return "err:status5xx"
 		}
 		return "err:status4xx"
+	case errors.Is(err, context.DeadlineExceeded):
+		return "err:deadline"
 	case errors.Is(err, context.Canceled):
 		return "err:canceled"
 	case errors.Is(err, io.ErrUnexpectedEOF):
@@ -645,11 +650,11 @@ func c09FileHex(c *blob.DiskCache, d blob.Digest) string {
 
 func c09PullCase(t *testing.T, out *zzverif.Out, rng *zzverif.Rng, dir string, tag string, linkShortcut, verify, staged bool) {
 	g := &c09Gen{rng: rng, out: out, cuts: map[string][]int64{}, manifests: map[string]*c09Manifest{}}
-	g.thr = int64(zzverif.Pick(rng, []int{2, 3, 4, 6}))
+	g.thr = int64(zzverif.Pick(rng, []int{2, 3, 4, 6, 6, 9}))
 	g.streams = zzverif.Pick(rng, []int{1, 1, 2, 2, 3, -1, -1})
 	npool := rng.Range(2, 4)
 	for i := 0; i < npool; i++ {
-		n := rng.Range(1, 8)
+		n := rng.Pick3(1, 8, 24)
 		if rng.Chance(1, 30) {
 			n = 0
 		}
@@ -763,6 +768,26 @@ func c09PullCase(t *testing.T, out *zzverif.Out, rng *zzverif.Rng, dir string, t
 		}
 		out.Count("manifest_" + manKind)
 		all := m.all()
+		if manKind == "ok" {
+			for _, l := range all {
+				switch {
+				case l.size == 0:
+					out.Count("dist_layer_empty")
+				case l.size < g.thr:
+					out.Count("dist_layer_single_chunk")
+				default:
+					out.Count("dist_layer_chunked")
+				}
+			}
+			seenDig := map[blob.Digest]bool{}
+			for _, l := range all {
+				if seenDig[l.dig()] {
+					out.Count("dist_manifest_with_duplicate_layer")
+					break
+				}
+				seenDig[l.dig()] = true
+			}
+		}
 		for _, l := range all {
 			if manKind == "ok" && int64(len(l.pre)) != l.size {
 				flag(l.dig()).sizeLie = true
@@ -824,7 +849,7 @@ func c09PullCase(t *testing.T, out *zzverif.Out, rng *zzverif.Rng, dir string, t
 				}
 			}
 		}
-		rc := &Registry{Cache: c, HTTPClient: &http.Client{Transport: reg}, MaxStreams: g.streams,
+		rc := &Registry{Cache: c, HTTPClient: &http.Client{Transport: reg}, MaxStreams: g.streams, ReadTimeout: 10 * time.Second,
 			ChunkingThreshold: g.thr}
 		linkBefore := c09ReadLink(dir, model)
 		faultRate := zzverif.Pick(rng, []int{0, 1, 1, 3, 6}) // out of 10
@@ -870,6 +895,14 @@ func c09PullCase(t *testing.T, out *zzverif.Out, rng *zzverif.Rng, dir string, t
 				}
 				counts = append(counts, strconv.Itoa(len(w)))
 				if rng.Chance(1, 30) && !calm {
+					// the registry stays silent past ReadTimeout (fake time): every waiting
+					// request is cancelled by its own timer with DeadlineExceeded
+					steps = append(steps, "timeout")
+					out.Count("step_read_timeout")
+					time.Sleep(11 * time.Second)
+					continue
+				}
+				if rng.Chance(1, 30) && !calm {
 					steps = append(steps, "cancel")
 					out.Count("step_cancel")
 					cancel()
@@ -885,6 +918,21 @@ func c09PullCase(t *testing.T, out *zzverif.Out, rng *zzverif.Rng, dir string, t
 		for _, u := range reg.unknown {
 			out.L2("driver-unexpected-request", tag, u)
 		}
+		for _, p := range reg.plans {
+			if p.fail == "" {
+				n := len(p.entries)
+				if n > 6 {
+					n = 6
+				}
+				out.Count(fmt.Sprintf("dist_plan_entries_%d", n))
+			}
+		}
+		ns := len(steps)
+		switch {
+		case ns > 8:
+			ns = 9
+		}
+		out.Count(fmt.Sprintf("dist_steps_per_attempt_%d", ns))
 
 		// ---- op line fragment of this attempt
 		var sb strings.Builder
@@ -1054,6 +1102,7 @@ func c09PullCase(t *testing.T, out *zzverif.Out, rng *zzverif.Rng, dir string, t
 			}
 		}
 	}
+	out.Count(fmt.Sprintf("dist_attempts_per_case_%d", nattempts))
 	sc := 0
 	if linkShortcut {
 		sc = 1
